@@ -1007,6 +1007,15 @@ func (p *Parser) evaluateVarDefinition(ctx context) (Statement, error) {
 	nameTokensLength := len(nameTokens)
 	firstNameToken := nameTokens[0]
 
+	// A name can be declared only once in a definition (var a, a int and a, a := 1, 2 are errors).
+	for i, nameToken := range nameTokens {
+		for _, previousToken := range nameTokens[:i] {
+			if previousToken.Value() == nameToken.Value() {
+				return nil, p.atError(fmt.Sprintf("repeated variable %s", nameToken.Value()), nameToken)
+			}
+		}
+	}
+
 	// Check if all variables are already defined.
 	if nameTokensLength > 1 {
 		alreadyDefined := 0
@@ -1336,6 +1345,13 @@ func (p *Parser) evaluateParams(ctx context) ([]Variable, error) {
 
 		if exists {
 			return params, fmt.Errorf("scope already contains a variable with the name %s", name)
+		}
+
+		// A parameter name can be used only once.
+		for _, param := range params {
+			if param.Name() == name {
+				return params, p.atError(fmt.Sprintf("repeated parameter %s", name), nameToken)
+			}
 		}
 		valueType, err := p.evaluateValueType()
 
@@ -1785,6 +1801,10 @@ func (p *Parser) evaluateFor(ctx context) (Statement, error) {
 				return nil, err
 			}
 			valueVarName = nextToken.Value()
+
+			if valueVarName == indexVarName {
+				return nil, p.atError(fmt.Sprintf("repeated variable %s", valueVarName), nextToken)
+			}
 		}
 		nextToken = p.eat()
 		hasNamedVar := len(valueVarName) > 0
